@@ -36,7 +36,7 @@ def main():
     tier = args[1] if len(args) > 1 else None
     c = claims.CLAIMS.get(prop, {"level": "proof", "text": ""})
     return engine.run_check(prop, tier, suites_for(prop), c["level"], c["text"], extra_trusted=c.get("trusted", ()),
-                            extra_checks=c.get("extra_checks"))
+                            extra_checks=c.get("extra_checks"), ties=c.get("ties", ()))
 
 
 if __name__ == "__main__":
